@@ -187,6 +187,12 @@ impl ServiceInfo {
         // [RFC20], excluding '=' (0x3D).
         for prop in txt_properties.iter() {
             let key = prop.key();
+            if key.is_empty() {
+                // RFC6763 section 6.4: "The key MUST be at least one character."
+                // An empty key without a value would be encoded as a zero-length
+                // string, which ends the TXT record for every decoder.
+                return Err(Error::Msg("TXT property key is empty".to_string()));
+            }
             if !key.is_ascii() {
                 return Err(Error::Msg(format!(
                     "TXT property key {} is not ASCII",
